@@ -9,14 +9,13 @@
    clause removed from the Go source disappears from the model too (and invalid_never_accepted
    stops being provable).
 
-   Faithfulness notes (the code as it is):
-   * RuleManager.GetRule hands out the served rule object itself.  SetReplicationConfig writes the
-     new count / labels into it IN PLACE and then calls SetRule with the same object: the patch
-     compares the rule with itself, trims it and saves nothing.  So `srule` (served default rule)
-     changes without `strule` (stored rule) ever following; on the error paths the in-place edit
-     stays (count) or is only half undone (labels).
-   * Set/DeleteLabelProperty roll back by applying the inverse operation, not by restoring the old map.
-   * trace-region-flow is `omitempty`: false is never written, Reload starts from the default true.
+   Faithfulness notes (the code as it is, after the fix commits 543d12e, 2b7647d, 953cbe1 in /repo):
+   * SetReplicationConfig edits a COPY of the default rule and hands it to SetRule, which now sees a
+     change and saves it (one rule write, faultable); nothing served is touched before SetRule and
+     Persist have succeeded; the roll-back puts count and labels back through a second SetRule.
+   * Set/DeleteLabelProperty restore the old map on a failed Persist.
+   * trace-region-flow is deprecated and `omitempty`: Reload always clears it and leaves
+     flow-round-by-digit as stored; that is the reload normalisation of this deprecated flag.
    * numbers: ratios are in thousandths (the harness only uses k/1000). *)
 From Coq Require Import String Ascii.
 From PDV Require Import lib.Base lib.C14_AList gen.Gen_C18.
@@ -180,14 +179,9 @@ Definition reload_conf (c : conf) : conf :=
           and MigrateDeprecatedFlags leaves flow-round-by-digit alone; then the flag is cleared *)
        (PdSrv (ps_dash (c_pd c)) (ps_digit (c_pd c)) false (ps_key (c_pd c)))
        (c_lp c) (c_ver c) (c_rm c).
-(* the documented normalisation: default schedulers re-added, deprecated flags migrated
-   (PDServerConfig.MigrateDeprecatedFlags: trace-region-flow=false means flow-round-by-digit=127) *)
-Definition normalise (c : conf) : conf :=
-  Conf (Sched (sc_tol (c_sched c)) (sc_low (c_sched c)) (sc_high (c_sched c)) (add_defaults (sc_scheds (c_sched c)))
-              (map (fun _ => false) (sc_dis (c_sched c))) 0 (sc_pay (c_sched c)))
-       (c_repl c)
-       (PdSrv (ps_dash (c_pd c)) (if ps_trace (c_pd c) then ps_digit (c_pd c) else 127) false (ps_key (c_pd c)))
-       (c_lp c) (c_ver c) (c_rm c).
+(* the documented reload normalisation: default schedulers re-added, deprecated flags migrated
+   (the deprecated disable-* flags and store-balance-rate are cleared; trace-region-flow is cleared) *)
+Definition normalise (c : conf) : conf := reload_conf c.
 
 (* ---------- operations ---------- *)
 Inductive op :=
@@ -264,17 +258,31 @@ Definition repl_check (s : state) (c old : repl) : option bool :=
     end
   else None.
 
+(* RuleManager.SetRule with a rule that differs from the served one: adjustRule passed, savePatch writes the one
+   rule (idx-th rule write of this operation), then the rule config is committed *)
+Definition set_rule_write (s : state) (r : rule) (f : fault) (idx : nat) : state * bool :=
+  let '(applied, ok) := wr f GRule idx in
+  let s1 := if applied then set_strule s (Some r) else s in
+  if ok then (set_srule s1 (Some r), true) else (s1, false).
+
 Definition repl_commit (s1 : state) (c old : repl) (edit : bool) (f : fault) : state * res :=
-  (* rule.Count / rule.LocationLabels are assigned on the served rule object itself *)
-  let s2 := if edit then set_srule s1 (Some (Rule (rp_max c) (rp_labels c))) else s1 in
-  if edit && (rp_max c <=? 0) then (s2, RRuleContent)     (* SetRule -> adjustRule: invalid count; the edit stays *)
-  else
-    let '(s3, ok) := persist (set_conf s2 (with_repl (served s2) c)) f 0 in
-    if ok then (s3, ROk)
+  if edit then
+    (* a COPY of the default rule gets the new count / labels and goes through SetRule *)
+    if rp_max c <=? 0 then (s1, RRuleContent)           (* adjustRule: invalid count; nothing was touched *)
     else
-      let s4 := set_conf s3 (with_repl (served s3) old) in
-      (* roll-back: only rule.Count is put back *)
-      ((if edit then set_srule s4 (Some (Rule (rp_max old) (rp_labels c))) else s4), RStorage).
+      let '(s2, okr) := set_rule_write s1 (Rule (rp_max c) (rp_labels c)) f 0 in
+      if negb okr then (s2, RStorage)
+      else
+        let '(s3, ok) := persist (set_conf s2 (with_repl (served s2) c)) f 0 in
+        if ok then (s3, ROk)
+        else
+          let s4 := set_conf s3 (with_repl (served s3) old) in
+          (* roll-back: SetRule(old count, old labels); refused (only logged) when the old count is not positive *)
+          if rp_max old <=? 0 then (s4, RStorage)
+          else (fst (set_rule_write s4 (Rule (rp_max old) (rp_labels old)) f 1), RStorage)
+  else
+    let '(s3, ok) := persist (set_conf s1 (with_repl (served s1) c)) f 0 in
+    if ok then (s3, ROk) else (set_conf s3 (with_repl (served s3) old), RStorage).
 
 Definition do_set_replication (s : state) (c : repl) (f : fault) : state * res :=
   if repl_invalid c then (s, RInvalid) else
@@ -326,17 +334,11 @@ Definition lp_delete (m : lprop) (t k v : string) : lprop :=
   let l := filter (fun p => negb (pair_eqb (k, v) p)) (lp_get m t) in
   match l with [] => lp_del m t | _ => lp_put m t l end.
 
-(* the roll-back is the INVERSE OPERATION, not the old value *)
+(* on a failed Persist the OLD MAP is put back *)
 Definition do_set_label (s : state) (t k v : string) (f : fault) : state * res :=
-  let s0 := set_conf s (with_lp (served s) (lp_set (c_lp (served s)) t k v)) in
-  let '(s1, ok) := persist s0 f 0 in
-  if ok then (s1, ROk)
-  else (set_conf s1 (with_lp (served s1) (lp_delete (c_lp (served s1)) t k v)), RStorage).
+  swap_persist s (with_lp (served s) (lp_set (c_lp (served s)) t k v)) f.
 Definition do_del_label (s : state) (t k v : string) (f : fault) : state * res :=
-  let s0 := set_conf s (with_lp (served s) (lp_delete (c_lp (served s)) t k v)) in
-  let '(s1, ok) := persist s0 f 0 in
-  if ok then (s1, ROk)
-  else (set_conf s1 (with_lp (served s1) (lp_set (c_lp (served s1)) t k v)), RStorage).
+  swap_persist s (with_lp (served s) (lp_delete (c_lp (served s)) t k v)) f.
 
 Definition do_set_version (s : state) (v : option ver) (f : fault) : state * res :=
   match v with
@@ -464,7 +466,10 @@ Definition pd_out_of_domain (c : pdsrv) : bool := ps_digit c <? 0.
 
 Definition is_ok (r : res) : bool := res_eqb r ROk.
 
-Definition mon_step (o : op) (prev cur : obs) : list string :=
+Definition rule_unknown (o : op) : bool :=     (* a rule write that was applied but reported failed: storage is ahead *)
+  match o with OSetReplication _ (Fault GRule _ FAfter) => true | _ => false end.
+
+Definition mon_step (unk : bool) (o : op) (prev cur : obs) : list string :=
   (* 1 values outside their domains are never accepted *)
   (match o with
    | OSetSchedule c _ =>
@@ -495,28 +500,23 @@ Definition mon_step (o : op) (prev cur : obs) : list string :=
   (* 3 an accepted change is what a new leader reloads, up to the documented normalisation *)
   (if is_ok (o_res cur) then
      (match o_reload cur with
-      | Some r =>
-          let n := normalise (o_served cur) in
-          if conf_eqb r n then []
-          else if negb (ps_trace (c_pd (o_served cur)))
-                  && conf_eqb (with_pd r (PdSrv (ps_dash (c_pd r)) (ps_digit (c_pd n)) (ps_trace (c_pd r)) (ps_key (c_pd r)))) n
-               then ["C18:trace-region-flow-false-lost-on-reload"]     (* only flow-round-by-digit differs, flag served false *)
-               else ["C18:accepted-change-not-reloaded"]
+      | Some r => if conf_eqb r (normalise (o_served cur)) then [] else ["C18:accepted-change-not-reloaded"]
       | None => ["C18:accepted-change-not-reloaded"]
       end) ++
-     (if rp_pr (c_repl (o_served cur)) && negb (opt_eqb rule_eqb (o_srule cur) (o_strule cur))
+     (* ... including the default placement rule (unless an earlier rule write had an unknown outcome) *)
+     (if negb unk && rp_pr (c_repl (o_served cur)) && negb (opt_eqb rule_eqb (o_srule cur) (o_strule cur))
       then ["C18:replication-change-not-persisted-to-default-rule"] else [])
    else []).
 
-Fixpoint mon_run (ops : list op) (prev : obs) (obs_l : list obs) : list string :=
+Fixpoint mon_run (unk : bool) (ops : list op) (prev : obs) (obs_l : list obs) : list string :=
   match ops, obs_l with
-  | o :: r, b :: br => (mon_step o prev b ++ mon_run r b br)%list
+  | o :: r, b :: br => let u := unk || rule_unknown o in (mon_step u o prev b ++ mon_run u r b br)%list
   | _, _ => []
   end.
 Definition monitor (c : case) : list string :=
   let '(_, ops, got) := c in
   match got with
-  | b0 :: br => nodup string_dec (mon_run ops b0 br)
+  | b0 :: br => nodup string_dec (mon_run false ops b0 br)
   | [] => ["C18:empty-trace"]
   end.
 Fixpoint monitor_fails_from (n : nat) (cs : list case) : list (nat * string) :=
